@@ -44,6 +44,16 @@ theorem fill_app (m : Mem) (x a : BitVec 64) (v : BitVec 8) (n : Nat) : fill m x
 theorem copy_app (m : Mem) (dst src a : BitVec 64) (n : Nat) :
     copy m dst src n a = if (a - dst).toNat < n then m (src + (a - dst)) else m a := rfl
 
+/-- `memset` / `memcpy` with a bit-vector length, read at one address (the form `bv_decide` can work with) -/
+theorem fill_app_bv (m : Mem) (x a : BitVec 64) (v : BitVec 8) (c : BitVec 64) :
+    fill m x v c.toNat a = if (a - x).ult c then v else m a := by
+  simp only [fill, BitVec.ult]
+  by_cases h : (a - x).toNat < c.toNat <;> simp [h]
+theorem copy_app_bv (m : Mem) (dst src a : BitVec 64) (c : BitVec 64) :
+    copy m dst src c.toNat a = if (a - dst).ult c then m (src + (a - dst)) else m a := by
+  simp only [copy, BitVec.ult]
+  by_cases h : (a - dst).toNat < c.toNat <;> simp [h]
+
 @[simp] theorem store_same (m : Mem) (a : BitVec 64) (v : BitVec 8) : store m a v a = v := by simp [store]
 theorem store_other (m : Mem) (a x : BitVec 64) (v : BitVec 8) (h : x ≠ a) : store m a v x = m x := by simp [store, h]
 
